@@ -1,6 +1,7 @@
 //! Shared, rcgen-independent parts of the simulator.
 pub mod algid;
 pub mod der;
+pub mod engine;
 pub mod prng;
 pub mod sha256;
 
